@@ -538,8 +538,15 @@ func (h *vHarness) deliverySequence(scale int) {
 			fallthrough
 		default:
 			e := pool[r.Intn(len(pool))]
-			if r.Intn(6) == 0 { // an emitter nobody filters for
+			switch r.Intn(12) {
+			case 0, 1: // an emitter nobody filters for
 				r.Read(e.addr[:])
+			case 2: // ... the all-zero emitter of chain 0 (what a zero-valued filter would name), and its two halves
+				e = vEmitter{}
+			case 3:
+				e.addr = [32]byte{}
+			case 4:
+				e.chain = 0
 			}
 			if r.Intn(5) == 0 { // signed by a large guardian set: 19 .. 40 signatures (up to 255 is a VAA)
 				b = h.mkVAAn(e, 1+r.Intn(40), []int{19, 20, 21, 40, 255}[r.Intn(5)])
